@@ -143,11 +143,13 @@ CLAIMED = {
              "truncated mask, multi-word select) extract exactly bits [c*chunk, c*chunk+c) for every 1<=c<=64 and value < 2^256; "
              "the whole per-scalar loop: packed limbs (OR of fields, truncation, multi-word writes, msb flag) read back by the "
              "chunk processor are the signed digits of the arithmetic recoding, no carry left, for every 2<=c<=64 and canonical "
-             "scalar. PARTIAL: final assembly msmInner = sum s_i P_i, smaller last bucket array, choice of c and splits, and "
+             "scalar; assembled: msmInner (partitionScalars + bucket method per chunk with the smaller last bucket array + "
+             "combination, first chunk split or not) = sum_i s_i P_i for every 2<=c<=64, every point list and canonical scalars. "
+             "PARTIAL: the cost-model choice of c / number of splits (any choice is correct by the theorems) and "
              "the Montgomery flag are tied by correspondence "
              "only (MultiExp/MultiScalar for sizes 0..4096 x task counts, each implemented c with and without first-chunk "
              "split and partitionScalars' packed limbs through hooks, watchdog for termination).",
-        note="Bit-level extraction of windows from limbs is compared, not proved.",
+        note="Group laws of Banderwagon are a premise (C08); Montgomery conversion of scalars is compared, not proved.",
         tech="Coq proof (induction over buckets/chunks, AAC regrouping) + differential correspondence incl. per-window hooks", ref="DESIGN.md 6.9"),
     "C06": dict(
         text="Theorems for every byte string: the compressed untrusted decoder accepts iff the exact decidable predicate "
